@@ -24,8 +24,8 @@ func nilGuardShape(s string) string {
 }
 
 func (c *Ctx) nilGuardCandidates() []*ssa.Function {
-	direct := map[*ssa.Function]bool{}   // has an invoke on a non-parameter Code value
-	onParam := map[*ssa.Function]bool{}  // has an invoke on a bare parameter
+	direct := map[*ssa.Function]bool{}  // has an invoke on a non-parameter Code value
+	onParam := map[*ssa.Function]bool{} // has an invoke on a bare parameter
 	all := c.allFuncs(c.Jen)
 	for _, f := range all {
 		for _, b := range f.Blocks {
